@@ -264,8 +264,105 @@ def handleConc (f : List String) : String × String × String :=
     ("-", if mism == "-" then "-" else "stale_after_concurrent_readers", s!"k=conc za={za} n={n} phases={phases} triv=0")
   | _ => ("bad-arity", "-", "-")
 
+/-! ### interleaved lock sections (`C13.ihist`)
+
+`C13.ihist za n streams steps | long fresh` — one long-lived `Ring` driven section by section through the hooks of
+`ring/verif_hooks_c13_sections.go`. steps: `U!kind!desc` (answer `s<k>`: which distinct `lastTopologyChange` reading the
+ring carries afterwards), `R1!ident!size` (section 1; `miss` or the members), `R2!ident!size` (section 2; `self#…` /
+`sub#…`), `R3!n` (section 3 for the n-th sub-ring computed by an R2 step), `L1/L2!ident!size!period!now`, `L3!n`,
+`K!ident`, `P!S!ident!size`, `P!L!ident!size!period!now` (undisturbed queries).
+diff = the model's transition system (`C13.lstep` run with the OBSERVED clock readings) gives the same answers;
+judge = every sub-ring handed out (R1 hit, R2, L1 hit, L2, P) equals the one of a fresh cache-less client. -/
+
+structure ISt where
+  s : LState
+  out : List String := []
+  hits : Nat := 0
+  drops : Nat := 0      -- section 3 refused by the guard
+  over : Nat := 0       -- section 2 run although the cache holds an entry for the key
+  stores : Nat := 0
+
+def parseEv (stepStr : String) : Option Ev :=
+  match stepStr.splitOn "!" with
+  | ["U", _, d] => (parseDesc d).map Ev.upd
+  | ["R1", i, sz] => sz.toInt?.map (Ev.look i)
+  | ["R2", i, sz] => sz.toInt?.map (Ev.comp i)
+  | ["R3", n] => n.toNat?.map Ev.store
+  | ["L1", i, sz, p, n] => do pure (Ev.lookL i (← sz.toInt?) (← p.toInt?) (← n.toInt?))
+  | ["L2", i, sz, p, n] => do pure (Ev.compL i (← sz.toInt?) (← p.toInt?) (← n.toInt?))
+  | ["L3", n] => n.toNat?.map Ev.storeL
+  | ["K", i] => some (Ev.clean i)
+  | ["P", "S", i, sz] => sz.toInt?.map (Ev.qS i)
+  | ["P", "L", i, sz, p, n] => do pure (Ev.qL i (← sz.toInt?) (← p.toInt?) (← n.toInt?))
+  | _ => none
+
+/-- the clock readings as observed: the k-th re-indexing of the model ↦ the stamp id the implementation showed after
+that update. -/
+def observedClock (cfg : Cfg) (stepsL longL : List String) : List Nat :=
+  ((stepsL.zip longL).foldl (fun (acc : Client × List Nat) (sp, a) =>
+    match parseEv sp with
+    | some (.upd d) =>
+      let c' := update acc.1 d
+      if c'.epoch != acc.1.epoch then (c', acc.2 ++ [((a.drop 1).toNat?).getD 0]) else (c', acc.2)
+    | _ => acc) (({ cfg := cfg } : Client), [0])).2
+
+def iAnswer (clkL : List Nat) (st : Streams) (s : LState) (ev : Ev) (s' : LState) : String :=
+  match ev with
+  | .upd _ => s!"s{clkL.getD s'.c.epoch 0}"
+  | .look .. | .lookL .. => match lans st s ev with | some m => showDesc m | none => "miss"
+  | .comp i sz => (if (compShard s.c st i sz).2.isSome then "sub#" else "self#") ++ showDesc (compShard s.c st i sz).1
+  | .compL i sz p n => (if (compShardLB s.c st i sz p n).2.isSome then "sub#" else "self#") ++ showDesc (compShardLB s.c st i sz p n).1
+  | .qS .. | .qL .. => match lans st s ev with | some m => showDesc m | none => "?"
+  | _ => "-"
+
+def istepO (clkL : List Nat) (st : Streams) (x : ISt) (stepStr : String) : ISt :=
+  match parseEv stepStr with
+  | none => { x with out := "parse-error" :: x.out }
+  | some ev =>
+    let clk := fun e => clkL.getD e 0
+    let s' := lstep clk st x.s ev
+    let a := iAnswer clkL st x.s ev s'
+    let hit := match ev with | .look .. | .lookL .. => (lans st x.s ev).isSome | _ => false
+    let over := match ev with
+      | .comp i sz => (lookupAssoc (⟨i, sz⟩ : Key) x.s.c.cache).isSome && (compShard x.s.c st i sz).2.isSome
+      | _ => false
+    let (isStore, drop) := match ev with
+      | .store n => (match x.s.pend[n]? with | some (_, sub) => (true, clk sub.epoch != clk x.s.c.epoch) | none => (false, false))
+      | .storeL n => (match x.s.pendL[n]? with | some (_, sub, _) => (true, clk sub.epoch != clk x.s.c.epoch) | none => (false, false))
+      | _ => (false, false)
+    { s := s', out := a :: x.out, hits := x.hits + (if hit then 1 else 0), drops := x.drops + (if drop then 1 else 0),
+      over := x.over + (if over then 1 else 0), stores := x.stores + (if isStore then 1 else 0) }
+
+def handleIHist (f : List String) : String × String × String :=
+  match f with
+  | [za, _n, streams, steps, long, fresh] =>
+    match parseStreams streams with
+    | some st =>
+      let starts := startsFn st
+      let stepsL := steps.splitOn "|"
+      let longL := long.splitOn "|"
+      let freshL := fresh.splitOn "|"
+      if stepsL.length != longL.length || stepsL.length != freshL.length then ("bad-lengths", "-", "-") else
+      let cfg : Cfg := ⟨za == "1"⟩
+      let clkL := observedClock cfg stepsL longL
+      let fin := stepsL.foldl (istepO clkL starts) ({ s := { c := { cfg := cfg } } } : ISt)
+      let model := fin.out.reverse
+      let diffs := ((stepsL.zip (model.zip longL)).zipIdx.filterMap fun ((sp, m, a), i) =>
+        if m == a then none else some s!"step{i}:{kindOf sp}={m}")
+      let diff := match diffs with | [] => "-" | d :: _ => d
+      let js := (stepsL.zip (longL.zip freshL)).filterMap fun (sp, a, b) =>
+        if a == b then none else some ("stale_section_" ++ ((sp.splitOn "!").headD "?"))
+      let nU := (stepsL.filter (·.startsWith "U")).length
+      -- did the clock advance between any two re-indexings (the hypothesis of the theorems)?
+      let collide := clkL.eraseDups.length != clkL.length
+      let tags := s!"k=ihist za={za} steps={OracleC12.bucket stepsL.length} upd={OracleC12.bucket nU} reidx={OracleC12.bucket (clkL.length - 1)} hits={OracleC12.bucket fin.hits} stores={OracleC12.bucket fin.stores} drops={OracleC12.bucket fin.drops} over={OracleC12.bucket fin.over} clk={if collide then "collide" else "advances"} triv={if nU ≤ 1 then 1 else 0}"
+      (diff, OracleC12.reasons js, tags)
+    | none => ("parse-error", "-", "-")
+  | _ => ("bad-arity", "-", "-")
+
 def handle (cmd : String) (f : List String) : String × String × String :=
   if cmd == "C13.hist" then handleHist f
+  else if cmd == "C13.ihist" then handleIHist f
   else if cmd == "C13.conc" then handleConc f
   else if cmd == "C13.phist" then handlePHist f
   else ("unknown-cmd", "-", "-")
